@@ -9,6 +9,41 @@ class GenerateError(Exception):
     pass
 
 
+CPP_RUNTIME_NAMES = frozenset(
+    [t + w + "_t" for t in ("int", "uint") for w in ("8", "16", "32", "64")] +
+    ["size_t", "native", "little", "big", "indent", "prophy", "std"]
+)
+
+
+def check_cpp_names(nodes):
+    """
+    Names the generated C++ resolves in its own scopes first: a schema name equal to one of them compiles and then means
+    something else (another array extent in encode, another field type, another enumerator in print). A member named like a
+    type of its own struct (or like the struct) changes the meaning of that name in the C++ class scope.
+    """
+    for node in nodes:
+        if isinstance(node, model.Include):
+            check_cpp_names(node.members)
+            continue
+        names = [node.name]
+        if isinstance(node, model.Enum):
+            names += [member.name for member in node.members]
+        for name in names:
+            if name in CPP_RUNTIME_NAMES:
+                raise GenerateError("'{}' is a name of the C++ runtime: the generated C++ would not mean the schema".format(name))
+        if isinstance(node, (model.Struct, model.Union)):
+            types = set(member.type_name for member in node.members) | set([node.name])
+            for member in node.members:
+                """ the constructor initialises an enum field with the (unqualified) first enumerator of its type """
+                definition = getattr(member, 'lowermost_typedef', None) if isinstance(member.definition, model.Typedef) else member.definition
+                if isinstance(definition, model.Enum) and definition.members:
+                    types.add(definition.members[0].name)
+            for member in node.members:
+                if member.name in types or member.name in CPP_RUNTIME_NAMES:
+                    raise GenerateError("member '{}' of {} is named like a type of that scope or a name of the C++ runtime"
+                                        .format(member.name, node.name))
+
+
 def _write_file(file_path, string):
     with codecs.open(file_path, "w", encoding="utf-8") as f:
         f.write(string)
